@@ -34,6 +34,7 @@ import (
 	"github.com/markusmobius/go-domdistiller/data"
 	"github.com/markusmobius/go-domdistiller/internal/extractor"
 	"github.com/markusmobius/go-domdistiller/internal/pagination"
+	"github.com/markusmobius/go-domdistiller/vtrace"
 	"golang.org/x/net/html"
 )
 
@@ -170,8 +171,14 @@ func Apply(doc *html.Node, opts *Options) (*Result, error) {
 	if doc.Type != html.ElementNode {
 		doc = dom.QuerySelector(doc, "*")
 		if doc == nil {
+			if vtrace.On {
+				vtrace.Emit("RootCheck", "ok", false)
+			}
 			return nil, errors.New("input doesn't have a valid element")
 		}
+	}
+	if vtrace.On {
+		vtrace.Emit("RootCheck", "ok", true, "tag", doc.Data)
 	}
 
 	// Create default options
@@ -208,6 +215,9 @@ func Apply(doc *html.Node, opts *Options) (*Result, error) {
 	if opts.OriginalURL != nil {
 		result.URL = opts.OriginalURL.String()
 	}
+	if vtrace.On {
+		vtrace.Emit("Rendered", "wc", wordCount, "title", result.Title)
+	}
 
 	// Find pagination
 	timingInfo := ce.TimingInfo
@@ -227,6 +237,9 @@ func Apply(doc *html.Node, opts *Options) (*Result, error) {
 		}
 
 		timingInfo.AddEntry(paginationStart, "Pagination")
+		if vtrace.On {
+			vtrace.Emit("Paginated", "algo", int(opts.PaginationAlgo), "next", result.PaginationInfo.NextPage, "prev", result.PaginationInfo.PrevPage)
+		}
 	}
 
 	timingInfo.TotalTime = time.Now().Sub(distillerStart)
